@@ -359,6 +359,74 @@ func c17Scenarios(tier string) []*world.Scenario {
 			out = append(out, sc)
 		}
 	}
+	// every command family around the limit: single-key read / write, split commands, scripts
+	{
+		pad := func(base []string, fill int, total int) []byte {
+			// grow the argument at index fill until the encoded request has exactly `total` bytes
+			for n := 0; n < 4*L; n++ {
+				args := append([]string{}, base...)
+				args[fill] = base[fill] + strings.Repeat("x", n)
+				if r := world.Cmd(args...); len(r) == total {
+					return r
+				} else if len(r) > total {
+					return nil
+				}
+			}
+			return nil
+		}
+		fams := []struct {
+			name string
+			base []string
+			fill int
+		}{
+			{"get", []string{"get", keysA[0]}, 1},
+			{"hset", []string{"hset", keysA[0], "f", "v"}, 3},
+			{"mget", []string{"mget", keysA[0], keysB[0]}, 2},
+			{"del", []string{"del", keysA[0], keysB[0]}, 1},
+			{"mset", []string{"mset", keysA[0], "v", keysB[0], "w"}, 4},
+			{"mget-1slot", []string{"mget", keysA[0]}, 1},
+			{"eval", []string{"eval", "return 1", "1", keysA[0]}, 1},
+			{"evalsha", []string{"evalsha", "abcdef", "1", keysA[0], "a"}, 4},
+		}
+		for _, f := range fams {
+			for _, total := range []int{L, L + 1, 3 * L} {
+				raw := pad(f.base, f.fill, total)
+				if raw == nil {
+					continue
+				}
+				over := len(raw) > L
+				var reqs []Req
+				if over {
+					reqs = []Req{{Kind: f.name, Bytes: raw, Expect: []byte(world.RErrReqLarge), Local: true}}
+				} else {
+					reqs = []Req{{Kind: f.name, Bytes: raw, Expect: nil}}
+				}
+				follow := GetReq(keysC[1])
+				cs := ClientOf(append(reqs, follow), false)
+				cs.Chunks[1].WaitReplies = 1
+				sc := &world.Scenario{Nodes: T3m(), Bound: 0, Family: "size", Horizon: 300, InputEnum: true, MaxLen: L, ReadCap: 8 * L, WriteCap: 8 * L,
+					Name: fmt.Sprintf("C17/size/%s/req%d", f.name, len(raw))}
+				sc.Clients = []world.ClientSpec{cs}
+				fk := keysC[1]
+				sc.Check = func(w *world.World) []world.Violation {
+					n := 0
+					for _, rec := range w.DataCmds("") {
+						if !hasKey(rec.Args, fk) {
+							n++
+						}
+					}
+					if over && n > 0 {
+						return []world.Violation{{Sig: "oversize-request-forwarded", Msg: fmt.Sprintf("request %q of %d bytes (limit %d) was forwarded (%d commands reached backends)", clipq(raw), len(raw), L, n)}}
+					}
+					if !over && n == 0 {
+						return []world.Violation{{Sig: "size-limit-off-by-one", Msg: fmt.Sprintf("request of exactly %d bytes (limit %d) reached no backend", len(raw), L)}}
+					}
+					return CheckStreams(w, StreamOpts{})
+				}
+				out = append(out, sc)
+			}
+		}
+	}
 	// a pipeline of small requests whose total exceeds L
 	{
 		var reqs []Req
